@@ -80,14 +80,14 @@ func (f *Subtract) Call(s *slip.Scope, args slip.List, depth int) (dif slip.Obje
 			dif = dif.(slip.DoubleFloat) - ta
 		case *slip.LongFloat:
 			syncFloatPrec(ta, dif.(*slip.LongFloat))
-			dif = (*slip.LongFloat)(((*big.Float)(dif.(*slip.LongFloat))).Sub(
-				(*big.Float)(dif.(*slip.LongFloat)),
-				(*big.Float)(ta)),
-			)
+			var z big.Float
+			dif = (*slip.LongFloat)(z.Sub((*big.Float)(dif.(*slip.LongFloat)), (*big.Float)(ta)))
 		case *slip.Bignum:
-			dif = (*slip.Bignum)(((*big.Int)(dif.(*slip.Bignum))).Sub((*big.Int)(dif.(*slip.Bignum)), (*big.Int)(ta)))
+			var z big.Int
+			dif = (*slip.Bignum)(z.Sub((*big.Int)(dif.(*slip.Bignum)), (*big.Int)(ta)))
 		case *slip.Ratio:
-			dif = (*slip.Ratio)(((*big.Rat)(dif.(*slip.Ratio))).Sub((*big.Rat)(dif.(*slip.Ratio)), (*big.Rat)(ta)))
+			var z big.Rat
+			dif = (*slip.Ratio)(z.Sub((*big.Rat)(dif.(*slip.Ratio)), (*big.Rat)(ta)))
 		case slip.Complex:
 			dif = slip.Complex(complex128(dif.(slip.Complex)) - complex128(ta))
 		}
